@@ -149,8 +149,11 @@ func run(c *rig.Ctx) {
 		cart := carts[int(i)%len(carts)]
 		p := prog.Generate(r, prog.Options{Interrupts: i%2 == 0, Hardware: true, MBCWrites: true, CartType: cart, AllOpcodes: i%3 == 0})
 		cart = int(p.CartType)
+		// the CGB flag byte of the header is no business of a DMG's
+		p.ROM[0x143] = []byte{0x00, 0x80, 0xc0}[i%3]
 		m := rig.MustNew(p.ROM, rig.Opts{})
 		cpuAlive := true
+		cpuRan, cpuHeld := false, false // the guest ran since the wave pattern was stored; hardware-only ticking
 		tick := func(n int) {
 			for k := 0; k < n; k++ {
 				if cpuAlive && m.CPU.XAtBoundary() && !m.CPU.XHalted() {
@@ -158,8 +161,9 @@ func run(c *rig.Ctx) {
 						cpuAlive = false
 					}
 				}
-				if cpuAlive {
+				if cpuAlive && !(cpuHeld && m.CPU.XAtBoundary()) {
 					m.Step()
+					cpuRan = true
 				} else {
 					m.PPU.EndMachineCycle()
 					m.Mem.EndMachineCycle()
@@ -187,6 +191,8 @@ func run(c *rig.Ctx) {
 			press()
 		}
 		dmaBurst := 0
+		var wavePat [16]uint8
+		waveArmed, waveAddr, waveVal := false, uint16(0), uint8(0)
 		var before, after [0x10000]byte
 		nw := int(c.N(5200, 40000))
 		sweep(m, &before)
@@ -208,7 +214,29 @@ func run(c *rig.Ctx) {
 				// sound registers written while all four channels are playing (set up afresh,
 				// with random parameters, before every such write)
 				mw := m.Mem.Write
+				// channel 3 is stopped first: wave RAM must still hold the pattern stored before
+				// the previous round (unless that round's write was to wave RAM, to channel 3's
+				// DAC/trigger or to the power register)
+				mw(0xff1a, 0x00)
+				if waveArmed && !cpuRan {
+					for q := 0; q < 16; q++ {
+						if got := m.Mem.Read(0xff30 + uint16(q)); got != wavePat[q] {
+							c.Violate("write-"+className(waveAddr)+"-changes-wave-ram",
+								fmt.Sprintf("cart %02X: wave RAM held % X while channel 3 played; %02X was written to %04X; with channel 3 stopped again [FF3%X] reads %02X", cart, wavePat, waveVal, waveAddr, q, got),
+								map[string]any{"addr": fmt.Sprintf("%04X", waveAddr), "value": waveVal, "program": p.Describe()})
+							break
+						}
+					}
+					c.Count("wave_ram_rechecked_after_stop", 1)
+				}
 				mw(0xff26, 0x80)
+				for q := 0; q < 16; q++ {
+					wavePat[q] = r.U8()
+					mw(0xff30+uint16(q), wavePat[q])
+				}
+				// (the guest program, which may store anywhere, is held at an instruction boundary
+				// in two rounds out of three, so that the pattern is known to be the harness's)
+				cpuRan, cpuHeld = false, m.CPU.XAtBoundary() && k%3 != 0
 				mw(0xff10, r.U8())
 				// length counters are often about to expire (one or two ticks left)
 				ln := func() uint8 { return r.Pick8([]uint8{0x3f, 0xff, 0x3e, r.U8(), r.U8()}) }
@@ -309,6 +337,9 @@ func run(c *rig.Ctx) {
 				}
 			}
 			before = after
+			waveArmed = k >= 2048+256 && k < 2048+256+800 && !(addr >= 0xff30 && addr <= 0xff3f) && addr != 0xff1a && addr != 0xff1e && addr != 0xff26
+			waveAddr, waveVal = addr, val
+			cpuHeld = false
 			if addr == 0xff46 && k%2 == 0 {
 				// let the transfer get under way: the following stores happen while it runs
 				tick(2 + r.Intn(150))
